@@ -66,6 +66,7 @@ off_t sync_file(const char *destination, const char *source,
     throw_errno(trace);
     close(out_fd);
     close(in_fd);
+    unlink(destination);
     clean_up(destination);
     return 0;
   }
@@ -74,6 +75,7 @@ off_t sync_file(const char *destination, const char *source,
     throw_static(messages.sync.source_is_not_regular_file, trace);
     close(out_fd);
     close(in_fd);
+    unlink(destination);
     clean_up(destination);
     return 0;
   }
@@ -89,6 +91,7 @@ off_t sync_file(const char *destination, const char *source,
       throw_errno(trace);
       close(out_fd);
       close(in_fd);
+      unlink(destination);
       clean_up(destination);
       return 0;
     }
@@ -97,6 +100,7 @@ off_t sync_file(const char *destination, const char *source,
   if (close(out_fd) < 0) {
     throw_errno(trace);
     close(in_fd);
+    unlink(destination);
     clean_up(destination);
     return 0;
   }
